@@ -3,6 +3,7 @@
 # Confirms independently: patch applies to a clean worktree at /repo's HEAD, pinned suite still passes (881/881),
 # demo exits 1 on the changed tree and 0 on the pristine tree. Writes <seed-dir>/confirm.json.
 S=$1; WT=$2
+TOOLS=$(cd "$(dirname "$0")"; pwd)
 cd "$WT" || exit 9
 git checkout -q -- . ; git clean -fdq -e logs 2>/dev/null
 res_apply=0; git apply "$S/patch.diff" 2>/tmp/apply.$$.err || res_apply=1
@@ -10,7 +11,7 @@ if [ $res_apply -ne 0 ]; then echo "{\"applies\": false, \"err\": \"$(head -c 20
 rm -f /tmp/apply.$$.err
 J=$(mktemp /tmp/junit.XXXXXX.xml)
 /venv/bin/python -m pytest -q -p no:cacheprovider --timeout=900 --continue-on-collection-errors --junitxml=$J >/dev/null 2>&1
-SUITE=$(/venv/bin/python $(dirname $0)/compare_baseline.py $J | head -1); rm -f $J
+SUITE=$(/venv/bin/python $TOOLS/compare_baseline.py $J | head -1); rm -f $J
 timeout 600 /venv/bin/python "$S/demo.py" > "$S/demo.changed.out" 2>&1; RC_CH=$?
 git checkout -q -- . ; git clean -fdq -e logs 2>/dev/null
 timeout 600 /venv/bin/python "$S/demo.py" > "$S/demo.pristine.out" 2>&1; RC_PR=$?
